@@ -292,9 +292,56 @@ def apply_rule_shape(ctx, rid, fs):
     early = [n for n in walk_nolambda(f.body) if n.get('k') in ('ReturnStmt', 'GotoStmt', 'CXXThrowExpr')]
     uncond = bool(sup) and bool(sts) and any(x is sup[0] for x in top) and any(x is sts[0] for x in top) and not early
     ctx.instance(rid, [f.id, 'unconditional'], {'loops_are_top_level_statements': uncond, 'early_exits': [short(n.get('loc')) for n in early]})
+    activation_dispatch(ctx, rid, fs)
     if not uncond:
         ctx.finding(rid, f.id, 'unconditional', 'predicate::apply_rule can skip the rules of the super-predicates or its own statements (an early exit or a guard around the loops): a predicate that inherits '
                     'Interval / Impulse (or any user rule) would then be activated without the inherited constraints', node=(early[0] if early else f.body))
+
+
+def activation_dispatch(ctx, rid, fs):
+    """atom_flaw::compute_resolvers offers the activation of the atom itself on every path: activate_fact exactly for a fact, activate_goal (which applies the
+    rule of the predicate, inherited rules included) exactly for a goal - under no other condition than is_fact and "there is no unifier"."""
+    f = fs.fn('ratio::atom_flaw::compute_resolvers')
+    env = LocalEnv(f)
+    cn = lambda n: canon(n, env, subst=False)
+    n = 0
+    ok = True
+    seen = set()
+    for p in enum_paths(f.body):
+        if p.end not in ('fall', 'return'):
+            continue
+        fact = None
+        other = []
+        news = [m for st in p.stmts if not st.get('as') for m in walk(st) if m.get('k') == 'CXXNewExpr' and 'atom_flaw::activate_' in (m.get('alloc_t') or '')]
+        kinds = [m.get('alloc_t') for m in news]
+        # the conditions the activation is directly controlled by: those of the ifs that enclose it
+        ctrl = set()
+        for m in news:
+            for a in f.ancestors(m):
+                if a.get('k') == 'IfStmt' and a['slots'].get('cond') is not None:
+                    ctrl |= {id(x) for x in walk(a['slots']['cond'])}
+        for c in p.conds:
+            if c[0] != 'if':
+                continue
+            t = cn(c[1])
+            if t == 'ratio::atom_flaw::is_fact':
+                fact = c[2]
+            elif isinstance(t, tuple) and t[0] == 'mcall' and str(t[1]).endswith('::empty') and 'get_resolvers' in show(t):
+                pass
+            elif id(c[1]) in ctrl:
+                other.append(show(t)[:80])
+        n += 1
+        want = ['ratio::atom_flaw::activate_fact'] if fact is True else ['ratio::atom_flaw::activate_goal'] if fact is False else None
+        good = kinds == want and not other
+        seen.add(fact)
+        ok = ok and good
+        if not good:
+            ctx.finding(rid, f.id, 'activation:%s' % fact, 'atom_flaw::compute_resolvers: on a path with is_fact = %s%s the activation offered is %s: a goal must be activated through activate_goal (its rule - and '
+                        'the inherited Interval / Impulse rule - is applied there), a fact through activate_fact, whatever else holds' % (
+                            fact, (' and ' + ', '.join(other)) if other else '', [k.rsplit('::', 1)[-1] for k in kinds] or 'none'), loc=f.loc)
+    ctx.instance(rid, [f.id, 'activation-dispatch'], {'paths': n, 'ok': ok and seen == {True, False}})
+    if seen != {True, False}:
+        raise AnalysisBroken('%s: the paths for a fact and for a goal were not both found' % f.id)
 
 
 def r3(ctx, fs):
